@@ -117,14 +117,35 @@ class Case(dict):
     def key(self):
         return self.line()
 
+class _CallTimeout(BaseException):
+    pass
+
+def _on_alarm(*_a):
+    raise _CallTimeout()
+
+CALL_TIMEOUT = float(os.environ.get("VERIF_CALL_TIMEOUT", "30"))
+
 def call_impl(table, case):
+    """one call of the implementation under a wall-clock limit: a (changed) implementation that does not come back, or
+    that eats all memory (the process runs under RLIMIT_AS, see main), yields the observation Hang / MemoryError - which the
+    oracles read as a raised call - instead of taking the machine down"""
     f = table[case["fn"]]
+    import signal
+    old = signal.signal(signal.SIGALRM, _on_alarm)
+    signal.setitimer(signal.ITIMER_REAL, CALL_TIMEOUT)
     try:
         return norm(f(*case["args"]))
+    except _CallTimeout:
+        return Err("Hang")
+    except MemoryError:
+        return Err("MemoryError")
     except RecursionError:
         return Err("Other")
     except Exception as e:  # noqa
         return err_of(e)
+    finally:
+        signal.setitimer(signal.ITIMER_REAL, 0)
+        signal.signal(signal.SIGALRM, old)
 
 def run_driver(lines):
     if not lines:
@@ -239,7 +260,28 @@ def explore(h, tier, seed):
         if k not in seen:
             seen.add(k); cases.append(c)
     t0 = time.time()
-    impl_obs = [call_impl(h.IMPL, c) for c in cases]
+    import resource
+    soft, hard = resource.getrlimit(resource.RLIMIT_AS)
+    cap = int(os.environ.get("VERIF_IMPL_MEM_GB", "12")) * 2 ** 30
+    try:
+        resource.setrlimit(resource.RLIMIT_AS, (cap if hard == resource.RLIM_INFINITY else min(cap, hard), hard))
+    except (ValueError, OSError):
+        pass
+    budget = float(os.environ.get("VERIF_IMPL_BUDGET", "240" if tier == "quick" else "3600"))
+    try:
+        impl_obs = []
+        for c in cases:
+            if time.time() - t0 > budget:
+                # a (changed) implementation that gets slower and slower: judge what was observed, say so
+                print("NOTE: implementation phase stopped after %d of %d cases (time budget %.0f s)" % (len(impl_obs), len(cases), budget))
+                cases = cases[:len(impl_obs)]
+                break
+            impl_obs.append(call_impl(h.IMPL, c))
+    finally:
+        try:
+            resource.setrlimit(resource.RLIMIT_AS, (soft, hard))
+        except (ValueError, OSError):
+            pass
     t_impl = time.time() - t0
     model_idx = [i for i, c in enumerate(cases) if c["model"]]
     t0 = time.time()
